@@ -300,7 +300,7 @@ func (p *IGMPv3GroupRecord) UnmarshalBinary(data []byte) error {
 	p.MulticastAddress = make([]byte, 4)
 	copy(p.MulticastAddress, data[n:n+4])
 	n += 4
-	if len(data) < int(p.Len()) {
+	if len(data) < n+int(p.NumberOfSources)*4+int(p.AuxDataLen)*4 {
 		return fmt.Errorf("The []byte is too short to unmarshal a full IGMPv3GroupRecord message.")
 	}
 	for i := uint16(0); i < p.NumberOfSources; i++ {
@@ -416,7 +416,7 @@ func (p *IGMPv3MembershipReport) UnmarshalBinary(data []byte) error {
 			return err
 		}
 		p.GroupRecords = append(p.GroupRecords, *gr)
-		n += int(gr.Len())
+		n += 8 + int(gr.NumberOfSources)*4 + int(gr.AuxDataLen)*4
 	}
 	return nil
 }
